@@ -77,6 +77,25 @@ def cli_vectors(ctx, gate_topa):
     rv = ["variants", "--msa", "@rev.fa", "--reference", "ref", "-a", "@rev.gb", "--append-snps"]
     for t in ([4, 8] if quick else [2, 3, 4, 8, 16]):
         add("variants-reverse-strand/t%d" % t, rv + ["-t", str(t)], base=rv + ["-t", "1"], parse="csv", hdr=1, n=400, sig="variants-reverse-strand", r=max(reps, 6))
+    big = dict(files)
+    big["big.sam"] = {"kind": "pipe-sam", "N": 3000}
+    big["big.fa"] = {"kind": "pipe-msa", "N": 3000}
+    for name, args in (("toma", ["sam", "toMultiAlign", "-s", "@big.sam", "-t", "2"]), ("tomawrap", ["sam", "toMultiAlign", "-s", "@big.sam", "-w", "10", "-t", "2"]),
+                       ("topa", ["sam", "toPairAlign", "-s", "@big.sam", "-r", "@ref.fa", "-o", "stdout", "-t", "2"]),
+                       ("snps", ["snps", "-r", "@ref.fa", "-q", "@big.fa"]), ("udlist", ["updown", "list", "-r", "@ref.fa", "-q", "@big.fa"]),
+                       ("variants", ["variants", "--msa", "@big.fa", "-a", "@a.gb", "-t", "2"])):
+        vecs.append({"id": "slow-reader/%s" % name, "fam": "cli", "files": big, "args": args, "reps": 2, "parse": "", "hdrlines": 0, "sig": "slow-reader-" + name,
+                     "race": False, "stdout_mode": "slow", "base": {"args": args}, "deadline_s": 60})
+    # one and two processors (affinity mask): commands that size their worker pool with runtime.NumCPU
+    for cpus in ("0", "0,1"):
+        for name, args in (("snps", ["snps", "-r", "@ref.fa", "-q", "@m.fa"]), ("udlist", ["updown", "list", "-r", "@ref.fa", "-q", "@m.fa"]),
+                           ("toprank", ["updown", "topranking", "-q", "@m.fasta", "-t", "@m.fasta", "-r", "@ref.fasta", "--size-total", "6"]),
+                           ("closest", ["closest", "--query", "@m.fa", "--target", "@m.fa"]),
+                           ("variants", ["variants", "--msa", "@m.fa", "-a", "@a.gb", "-t", "3"]),
+                           ("toma", ["sam", "toMultiAlign", "-s", "@in.sam", "-t", "3"])):
+            v = {"id": "cpus%s/%s" % (cpus.replace(",", "+"), name), "fam": "cli", "files": files, "args": args, "reps": 2, "parse": "", "hdrlines": 0,
+                 "sig": "processors-" + name, "race": False, "taskset": cpus, "base": {"args": args}}
+            vecs.append(v)
     # imposed delivery orders from the model, small input
     small = dict(files)
     small["in.sam"] = {"kind": "pipe-sam", "N": gate_topa[0]["N"]} if gate_topa else files["in.sam"]
